@@ -9,7 +9,7 @@ def add(pid, technique, text, note, ref):
     CHECKS[pid] = (technique, text, note, ref)
 
 add("C03", "bounded-exhaustive token-sequence / edit / prefix / character-string exploration of the real parser against an Earley recogniser over the transcribed CFG",
-    "Every token sequence up to length 2 (3 in the three body frames; thorough 3 / 4) in 16 syntactic frames, every single insertion / deletion / replacement / adjacent swap (thorough: every pair of edits on the two small seeds) and every prefix+1 of six seed documents, every keyword, literal, reserved word and near-keyword in each of 12 identifier slots, 42 hand-listed lexeme variants and every atom string up to length 3-4 (thorough 4-5) in three character frames is parsed by the real library; its verdict (tree / syntax diagnostics, before and after validation) is compared with a reference lexer + generic Earley recogniser. Exhaustive within those bounds; nothing sampled.",
+    "Every token sequence up to length 2 (3 in the three body frames; thorough 3 / 4) in 16 syntactic frames, every single insertion / deletion / replacement / adjacent swap (thorough: every pair of edits on the two small seeds) and every prefix+1 of six seed documents, every keyword, literal, reserved word and near-keyword in each of 12 identifier slots, 77 hand-listed lexeme variants (identifiers spelled like terminal names, brace-value separators, forty warnings followed by a syntax error, 120 members), every document of the C02 corpus (one layout) and every atom string up to length 3-4 (thorough 4-5) in three character frames is parsed by the real library; its verdict (tree / syntax diagnostics, before and after validation) is compared with a reference lexer + generic Earley recogniser. Exhaustive within those bounds; nothing sampled.",
     "trusted: reference lexer and CFG transcription (DESIGN.md appendices A/B), hook H1 read accessor; bounds: sequence length, edit distance, atom alphabets",
     "DESIGN.md section 4, C03")
 add("C20", "exhaustive enumeration of error points (C03 spaces) with the parser's own expectation vector recorded by a hook as oracle",
@@ -18,7 +18,7 @@ add("C20", "exhaustive enumeration of error points (C03 spaces) with the parser'
     "DESIGN.md section 4, C20")
 
 add("C02", "bounded-exhaustive document x layout exploration of the real parser against a generating document model",
-    "Every document of finite families (all types to depth 3/4 in four positions, all member sequences to length 2/3, argument lists, every value / annotation / header form, near-keyword names in every slot, six seeds) is rendered in every layout of a finite layout set (default, minimal, uniform fillers incl. comments / CRLF / NBSP, every single-gap deviation, two-gap deviations on seeds), parsed and validated by the real library; the projected tree must equal the generating model in every layout. Exhaustive within those families; nothing sampled.",
+    "Every document of finite families (all types to depth 3/4 in four positions, all member sequences to length 2/3, argument lists, every value / annotation / header form, near-keyword names in every slot, a size family with 9-64 imports / members / arguments / elements / parameters / nesting levels, six seeds) is rendered in every layout of a finite layout set (default, minimal, uniform fillers incl. comments / CRLF / NBSP, every single-gap deviation, two-gap deviations on seeds), parsed and validated by the real library; the projected tree must equal the generating model in every layout. Exhaustive within those families; nothing sampled.",
     "trusted: document model / renderer / projection (independent of the library); bounds: type depth, sequence lengths, filler set, deviation count",
     "DESIGN.md section 4, C02")
 add("C04", "bounded-exhaustive document x layout exploration with a token table as range oracle, plus all malformed cases of the C03 spaces",
@@ -31,19 +31,19 @@ add("C05", "exhaustive enumeration of import / declaration / project configurati
     "All subsets of <= 3 of 8 imports x all sets of 3 forward declarations x 8 (thorough 16) project contexts (5 952 / 11 904 configurations, 375 type references each); the observed file holds 15 adversarially similar names x 5 nesting depths x 5 positions (return, argument, field, interface constant, parcelable constant); supporting files include one with a recovered syntax error and a project item named like a built-in; every third configuration also in a layout with a comment and line break in every gap. Every type node's kind after validate() and every diagnostic on a type-name span is compared with the statement's rule; the same final projects are also reached through replace (with transient decoy contents), add-then-remove, reversed and replaced-by-a-file-without-a-tree histories (quick: every 5th configuration, thorough: all). Exhaustive over that product.",
     SEMA_NOTE, "DESIGN.md section 4, C05")
 add("C06", "exhaustive enumeration of import lists x forward-declaration lists x bodies x project contexts against the statement's exactly-one-of table",
-    "Every import list (with repetition) of length <= 2 (thorough <= 3) over 10 imports x every declaration list of length <= 2 (thorough <= 3) over 5 names x 2 bodies x 2 contexts (quick adds all import lists of length 3 with declaration lists <= 1); the multiset of validation diagnostics located in the header must equal the reference multiset (severity, statement, related statement).",
+    "Every import list (with repetition) of length <= 2 (thorough <= 3) over 10 imports x every declaration list of length <= 2 (thorough <= 3) over 5 names x 2 bodies (every fifth case with a large header of 24 more imports and a type 20 levels deep) x 2 contexts (quick adds all import lists of length 3 with declaration lists <= 1); the multiset of validation diagnostics located in the header must equal the reference multiset (severity, statement, related statement).",
     SEMA_NOTE, "DESIGN.md section 4, C06")
 add("C07", "exhaustive enumeration of ordered argument pairs over (category x direction) cells x oneway combinations against the statement's table",
-    "All ordered pairs of 80 (category, direction) cells (20 category representatives reached through real multi-file resolution; every third argument annotated) x interface oneway x 4 method-oneway patterns x with/without a constant before a member (then all methods share one name), every cell alone, thorough: all 512 000 ordered triples; Errors on direction keywords / at argument type starts and the propagated oneway flags are compared with the reference.",
+    "All ordered pairs of 84 (category, direction) cells (21 category representatives reached through real multi-file resolution, beside mirror files that give every name the other kinds; every third argument annotated) x interface oneway x 4 method-oneway patterns x with/without a constant before a member (then all methods share one name), every cell alone, thorough: all 512 000 ordered triples; Errors on direction keywords / at argument type starts and the propagated oneway flags are compared with the reference.",
     SEMA_NOTE, "DESIGN.md section 4, C07")
-add("C08", "exhaustive enumeration of container shapes to depth 3/4 over 17 leaf categories in 4 positions against the statement's element tables",
-    "Every chain over {T[], List<T>, Map<String,T>, Map<T,String>} of depth <= 4 (thorough 5) over 17 leaf categories plus all Map<k,v> over leaf pairs, in return / argument / field / constant position, under three headers (plain / importing the built-ins it uses / importing project items and declaring a parcelable named like built-ins), partly in a commented layout, packed 40 per file and unpacked at the next smaller depth; every validation diagnostic inside a type's extent is compared with the reference applied to every container node.",
+add("C08", "exhaustive enumeration of container shapes to depth 3/4 over 18 leaf categories in 4 positions against the statement's element tables",
+    "Every chain over {T[], List<T>, Map<String,T>, Map<T,String>} of depth <= 4 (thorough 5) over 18 leaf categories plus all Map<k,v> over leaf pairs and single chains of depth 6-24, in return / argument / field / constant position, under three headers (plain / importing the built-ins it uses / importing project items and declaring a parcelable named like built-ins), partly in a commented layout, packed 40 per file and unpacked at the next smaller depth; every validation diagnostic inside a type's extent is compared with the reference applied to every container node.",
     SEMA_NOTE, "DESIGN.md section 4, C08")
 add("C09", "exhaustive enumeration of member sequences (append-one-member transition) against a reference single pass",
-    "Every member sequence of length <= 4 (thorough 5) over 12 methods (3 names x {no code, 8, 010, 10}), a constant and a constant named like a method (every third sequence in a commented layout); all diagnostics inside the interface body incl. related ranges are compared with the reference (first-occurrence bookkeeping, exactly one 'mixed' Error).",
+    "Every member sequence of length <= 4 (thorough 5) over 12 methods (3 names x {no code, 8, 010, 10}), a constant and a constant named like a method (every third sequence in a commented layout) plus interfaces of 9-40 methods with shuffled codes and far-apart repeats / late mixing; all diagnostics inside the interface body incl. related ranges are compared with the reference (first-occurrence bookkeeping, exactly one 'mixed' Error).",
     SEMA_NOTE, "DESIGN.md section 4, C09")
 add("C10", "exhaustive enumeration of (interface oneway x method lists over oneway x return-type category) against the propagation / void rule",
-    "Interface oneway x all method lists of length <= 2 over 38 forms (method oneway x 19 return-type categories), triples over 8 (thorough 38) forms, each plain / constant first / constant between / same method name / annotated methods; oneway flags in the returned tree, Warnings on `oneway` keywords and Errors on return types are compared with the reference.",
+    "Interface oneway x all method lists of length <= 2 over 38 forms (method oneway x 19 return-type categories), triples over 8 (thorough 38) forms, each plain / constant first / constant between / same method name / annotated methods, plus oneway interfaces of 8-40 methods; oneway flags in the returned tree, Warnings on `oneway` keywords and Errors on return types are compared with the reference.",
     SEMA_NOTE, "DESIGN.md section 4, C10")
 
 add("C15", "exhaustive enumeration of generated trees x filter levels x predicate families against a reference visit order",
@@ -56,30 +56,30 @@ add("C17", "exhaustive enumeration of (item kind x package depth x referencing p
     "All 3 item kinds x 3 target names (ordinary / like a built-in) x 3 package depths x 4 positions x 4 (thorough 7) nesting contexts x 2-3 written forms x 2 layouts (target and referrers one token per line) x 3 (thorough 5) histories of a five-file project (target, suffix-named sibling, same-named item in another package, two referrers); get_qualified_name / get_name of every symbol of every file and Aidl::get_key are compared with the statement.",
     "trusted: document model, reference resolution rule; files whose traversal differs from the reference are skipped (C15)", "DESIGN.md section 4, C17")
 add("C18", "exhaustive enumeration of (construct x situation x doc shape x style x EOL) against an expected documentation string built from the doc model",
-    "Every documentable construct (20 instances over three host documents, annotated and plain) x 10 situations x 326 doc shapes (quick: all shapes for the plain doc-comment situation, 6 representatives for the others; thorough: all for all) x 4 rendering styles x LF/CRLF; the doc field of every documentable construct of the returned tree is compared with the expectation (None wherever the comment does not directly precede).",
+    "Every documentable construct (20 instances over three host documents, annotated and plain) x 11 situations x 326 doc shapes (plus six long shapes of 0.6-5 KB in six situations) (quick: all shapes for the plain doc-comment situation, 6 representatives for the others; thorough: all for all) x 4 rendering styles x LF/CRLF; the doc field of every documentable construct of the returned tree is compared with the expectation (None wherever the comment does not directly precede).",
     "trusted: doc model / renderer (model/docs.rs); statement's restrictions on comment content are the space's", "DESIGN.md section 4, C18")
 add("C19", "exhaustive enumeration of trees over the optional-field presence product and all resolved kinds, RON round trip as oracle",
     "Every parse-stage and validated tree of the C02 document space, of the full presence product of optional fields (with empty / multi-paragraph / non-ASCII / CRLF documentation), of a multi-file project reaching every TypeKind and (thorough) of the 5 952 C05 configurations (both observed files) is serialised with ron and read back; equality with the original is required.",
     "trusted: ron 0.7, serde_json (triage only)", "DESIGN.md section 4, C19")
 
 add("C01", "bounded-exhaustive input-shape exploration (character trees, token-sequence trees, edits, nasty fillers in every gap, parametric families, project assignments) in a supervised child process",
-    "Every atom string up to length 3-5 in 7 character frames, every token sequence up to length 2 (thorough 3) in 16 frames, every single token edit of six seeds, every nasty filler in every token gap (thorough: pairs of gaps on the small seeds), nesting depth 0..64, sizes by doubling to 16 KiB (thorough 64 KiB), every assignment of 5 contents to <= 4 (thorough 6) ids, and an import x type-name soup are fed to add_content + validate under catch_unwind; the exploring process is supervised so that aborts, stack overflows and hangs are attributed to the case in flight. Oracle: returns, key set = id set, tags.",
+    "Every atom string up to length 3-5 in 7 character frames, every token sequence up to length 2 (thorough 3) in 16 frames, every single token edit of six seeds, every nasty filler in every token gap (thorough: pairs of gaps on the small seeds), nesting depth 0..64, sizes by doubling to 16 KiB (thorough 64 KiB), every assignment of 5 contents to <= 4 (thorough 6) ids, and an import x type-name soup (incl. oneway methods returning raw containers) are fed to add_content + validate under catch_unwind; the exploring process is supervised so that aborts, stack overflows and hangs are attributed to the case in flight. Oracle: returns, key set = id set, tags.",
     "trusted: wall-clock limits separate slow from hanging (120 s; 900 s for the size families); bounds: alphabets, lengths, depth 64, 64 KiB",
     "DESIGN.md section 4, C01")
 add("C11", "exhaustive exploration of environment answers (hash-iteration orders) with owned seeds and a closure certificate, x insertion orders x histories x repeated calls",
-    "22 colliding projects x insertion orders (quick 6, thorough all 24) x plain / replace histories (interim contents, a validation, the EOL twin of every file) x base keys of fresh threads x repeated validate() calls, plus the same projects in 4 (thorough 16) child processes; std's hash seeds are owned through an LD_PRELOAD getrandom shim, and seeds are enumerated until every hash container of <= 4 elements has been observed (hook H3) in all its iteration orders at every site (evidence lists observed / possible per site). All outputs of a project must be equal (trees by ==, diagnostic vectors element-wise) and every file's diagnostics ascending in (line, column). One recorded finding (one key registered with two kinds).",
+    "23 colliding projects x insertion orders (quick 6, thorough all 24) x plain / replace histories (interim contents, a validation, the EOL twin of every file) x base keys of fresh threads x repeated validate() calls, plus the same projects in 4 (thorough 16) child processes; std's hash seeds are owned through an LD_PRELOAD getrandom shim, and seeds are enumerated until every hash container of <= 4 elements has been observed (hook H3) in all its iteration orders at every site (evidence lists observed / possible per site). All outputs of a project must be equal (trees by ==, diagnostic vectors element-wise) and every file's diagnostics ascending in (line, column). One recorded finding (one key registered with two kinds).",
     "trusted: getrandom shim (self-tested each run), hook H3 observers; thread schedules are not explored (no synchronisation operations in the library)",
     "DESIGN.md section 4, C11")
 add("C12", "explicit-state exploration of operation histories on the live Parser (cloned per branch) against a fresh parser built from the abstract id -> content map",
-    "Full history trees from the empty parser (alphabet A: 28 operations incl. the CRLF twin of a content, a BOM-prefixed file and a non-canonical path, to depth 3 / 4; alphabet B: 11 operations to depth 4 / 6) and all suffixes of length 2 from 215 (thorough all 622) reachable abstract states, thorough also all suffixes of length 3 from the states with <= 2 files; after every transition validate() of the live object must equal validate() of a fresh parser holding the abstract map, and add_file must fail exactly when the model says so.",
+    "Full history trees from the empty parser (alphabet A: 30 operations incl. the CRLF twin of a content, a BOM-prefixed file, a 100 KB file and a non-canonical path, to depth 3 / 4; alphabet B: 11 operations to depth 4 / 6) and all suffixes of length 2 from 215 (thorough all 622) reachable abstract states, thorough also all suffixes of length 3 from the states with <= 2 files; after every transition validate() of the live object must equal validate() of a fresh parser holding the abstract map, and add_file must fail exactly when the model says so.",
     "trusted: hook H4 (derived Clone) for branching - every violation is re-confirmed by a from-scratch replay without clones; abstract states with one key in two kinds are pruned (C11)",
     "DESIGN.md section 4, C12")
 add("C13", "explicit-state exploration of (observed file, project) states under single-file perturbations of the live parser, differential oracle",
-    "6 observed files x every set of <= 2 (thorough 4) of 20 other files x every single-file perturbation (add / drop / swap / replace in place) applied to the already validated live parser; all observations with equal (observed text, per-import registered?/kind) must be equal; kind changes must be observable (negative control).",
+    "6 observed files x every set of <= 2 (thorough 4) of 22 other files x every single-file perturbation (add / drop / swap / replace in place) applied to the already validated live parser; all observations with equal (observed text, per-import registered?/kind) must be equal; kind changes must be observable (negative control).",
     "trusted: hook H4 (Clone); violations re-confirmed by replaying both plain histories; projects with one key in two kinds excluded (C11)",
     "DESIGN.md section 4, C13")
 add("C14", "bounded-exhaustive token-string exploration of malformed members in member frames against sibling-preservation and locality oracles",
-    "Item kind (3) x position (first / middle / last) x every token string of length <= 2 (middle position 3; thorough 3 / 4) over the vocabulary minus terminators and braces, plus all fused pairs of well-formed members and 8 token patterns repeated 1..24, 32, 40, 48, 64 and 96 times, kept when the Earley recogniser says the string is not a member and is detectably dead by its terminator; oracle: tree present, siblings intact in order (parse-stage tree against the model; validated tree against the validated document without the malformed member), >= 1 syntax Error, every syntax diagnostic inside the malformed member's extent.",
+    "Item kind (3) x position (first / middle / last) x every token string of length <= 2 (middle position 3; thorough 3 / 4) over the vocabulary minus terminators and braces, plus all fused pairs of well-formed members and 8 token patterns repeated 1..24, 32, 40, 48, 64 and 96 times, in three layouts (one line / LF lines / CRLF lines), kept when the Earley recogniser says the string is not a member and is detectably dead by its terminator; oracle: tree present, siblings intact in order (parse-stage tree against the model; validated tree against the validated document without the malformed member), >= 1 syntax Error, every syntax diagnostic inside the malformed member's extent.",
     "trusted: CFG transcription + Earley recogniser for membership, token table for the extent, hook H1",
     "DESIGN.md section 4, C14")
 
